@@ -48,10 +48,15 @@ ASSUMPTIONS = [
     "Hermiticity of a 2-RDM in the stated (chemist) order G[p,q,r,s] = <p+ r+ s q> means G[p,q,r,s] = conj(G[q,p,s,r]); "
     "the particle-exchange symmetry G[p,q,r,s] = G[r,s,p,q] is not part of the statement and only counted "
     "(counter particle_exchange_asymmetric)",
-    "premise 'the state conserves the electron number' (traces): the prepared statevector has <N> = n and <N^2> = n^2 "
-    "(likewise N_alpha, N_beta) to 1e-9; JW: decided from the bit populations of the amplitudes alone; BK/scBK/JKMN: "
-    "with the number operators encoded by fermion_to_qubit_mapping using the ACTIVE spin (faithfulness of the encodings "
-    "is C03's subject), evaluated in numpy on the statevector; whether an ansatz conserves N is C12's subject",
+    "premise 'the state conserves the number of active electrons' (traces): the prepared statevector has <N> = n and "
+    "<N^2> = n^2 (likewise N_alpha, N_beta) to 1e-9, N summed over the PHYSICAL active spin-orbitals (the register of a UHF "
+    "molecule with unequal alpha/beta active spaces contains padding modes); JW: decided from the bit populations of the "
+    "amplitudes alone; BK/scBK/JKMN: with the number operators encoded by fermion_to_qubit_mapping using the ACTIVE spin "
+    "(faithfulness of the encodings is C03's subject), evaluated in numpy on the statevector; whether an ansatz conserves "
+    "N (Trotterised UCCSD/UpCCGSD under BK/scBK/JKMN often do not; UpCCGSD populates padding modes) is C12's subject; "
+    "classical solvers always satisfy the premise",
+    "padding helpers are judged against their input: E(padded, full-space integrals) == E(input, active-space integrals) "
+    "and trace(padded) == trace(input) + frozen electrons, so that a defective input RDM is not reported twice",
     "the reference contraction uses PySCF AO integrals folded with the frozen-occupied density (mc/ref/chem.py); that "
     "Tangelo's own integrals agree with it is C04's subject",
     "MP2Solver.get_rdm raises RuntimeError for frozen orbitals (documented) and for every UHF molecule; FCISolver raises "
@@ -63,6 +68,9 @@ TOL_CC = 1e-6
 TOL_H = 1e-8
 TOL_TR = 1e-7
 TOL_PREMISE = 1e-9
+# G[p,q,r,s] = G[r,s,p,q] holds for every true 2-RDM but is not Hermiticity and is not in the C13 statement: counted only
+# (fires for CCSDSolver.get_rdm on ROHF molecules, which returns aa + 2*ab + bb instead of aa + ab + ba + bb).
+ASSERT_PARTICLE_EXCHANGE = False
 
 Q, T = "quick", "thorough"
 
@@ -166,7 +174,8 @@ _SCF = {}
 
 @contextlib.contextmanager
 def quiet():
-    with contextlib.redirect_stdout(io.StringIO()):
+    """Tangelo / PySCF chatter (ECP hints, ansatz prints) is not part of the check output."""
+    with contextlib.redirect_stdout(io.StringIO()), contextlib.redirect_stderr(io.StringIO()):
         yield
 
 
@@ -357,9 +366,9 @@ class Ctx:
     def __init__(self, acc, case, site, sig):
         self.acc, self.case, self.site, self.sig = acc, case, site, sig
 
-    def bad(self, kind, detail=None, site=None):
+    def bad(self, kind, detail=None, site=None, sig=None):
         s = site or self.site
-        self.acc.violation(f"{s}/{kind}/{self.sig}", dict(self.case, focus=f"{s}/{kind}"), detail, group=f"{s}/{kind}")
+        self.acc.violation(f"{s}/{kind}/{sig or self.sig}", dict(self.case, focus=f"{s}/{kind}"), detail, group=f"{s}/{kind}")
 
 
 def check_rdms(cx, mol, I, form, r1, r2, e_solver, tol, prem, ferm_op=None, api=True):
@@ -418,6 +427,8 @@ def check_rdms(cx, mol, I, form, r1, r2, e_solver, tol, prem, ferm_op=None, api=
         cx.bad("rdm2-not-hermitian", {"max|G[p,q,r,s] - conj(G[q,p,s,r])|": h2, "form": form})
     if ex > TOL_H:
         acc.count("particle_exchange_asymmetric:" + cx.site)
+        if ASSERT_PARTICLE_EXCHANGE:
+            cx.bad("rdm2-not-particle-exchange-symmetric", {"max|G[p,q,r,s] - G[r,s,p,q]|": ex, "form": form})
     # ---- traces -----------------------------------------------------------------------------------------------------------
     if form == "spatial":
         tr = [("N", np.trace(r1), na_e + nb_e)]
@@ -472,8 +483,8 @@ def check_padding(cx, mol, I, form, r1, r2):
         mut = [n for n, x, y in list(zip(names1, a1, b1)) + list(zip(names2, a2, b2)) if not same_bytes(x, y)]
         dmax = max(float(np.max(np.abs(x - y))) for x, y in list(zip(a1, b1)) + list(zip(a2, b2)))
     if mut:
-        cx.acc.violation(f"{site}/argument-mutated/{'+'.join(mut)}", dict(cx.case, focus=f"{site}/argument-mutated"),
-                         {"arguments changed by the call": mut, "max |after - before|": dmax}, group=f"{site}/argument-mutated")
+        which = "+".join(sorted({m.split("[")[0] for m in mut}))
+        cx.bad("argument-mutated", {"arguments changed by the call": mut, "max |after - before|": dmax}, site=site, sig=which)
     # trace of the padded 1-RDM = trace of the input + frozen electrons
     if form == "spatial":
         nfa = nfb = len(mol.frozen_occupied)
@@ -683,11 +694,11 @@ def run_vqe(cfg, theta_kinds, acc, forms=None, with_compute_rdms=True):
                         if not abs(e_api - e) <= TOL_E:
                             cx.bad("shape-incompatible-with-energy_from_rdms",
                                    {"shapes": [list(x.shape) for x in r1], "n_active_mos": [nact_a, nact_b],
-                                    "mol.energy_from_rdms": e_api, "E_solver": e})
+                                    "mol.energy_from_rdms": e_api, "E_solver": e}, sig="UHF/unequal-active-spaces")
                     except Exception as ex:
                         cx.bad("shape-incompatible-with-energy_from_rdms",
                                {"shapes": [list(x.shape) for x in r1], "n_active_mos": [nact_a, nact_b],
-                                "mol.energy_from_rdms raises": repr(ex)[:200]})
+                                "mol.energy_from_rdms raises": repr(ex)[:200]}, sig="UHF/unequal-active-spaces")
                     # nothing may live outside the physical orbitals; continue with the physical blocks
                     t1 = (r1[0][:nact_a, :nact_a], r1[1][:nact_b, :nact_b])
                     t2 = (r2[0][:nact_a, :nact_a, :nact_a, :nact_a], r2[1][:nact_a, :nact_a, :nact_b, :nact_b],
@@ -710,7 +721,7 @@ def run_vqe(cfg, theta_kinds, acc, forms=None, with_compute_rdms=True):
                 check_rdms(cx, mol, I, form, r1, r2, e, TOL_E, prem, ferm_op=fop)
                 if form == "spatial":
                     check_padding(cx, mol, I, "spatial", r1, r2)
-            if len(acc.samples) < 2 and tk == "dense":
+            if len(acc.samples) < 1 and tk == "dense":
                 acc.sample({"case": case, "E_solver": e, "n_params": n, "<N>": vals["N"], "number_eigenstate": prem["N"]})
         # ---- rdms.compute_rdms fed with exact expectation values of the same state (dense vector, restricted) ------------
         if with_compute_rdms and tk == "dense" and not mol.uhf:
@@ -767,9 +778,11 @@ def shards(tier, seed):
                                     sh.append(dict(base, thetas=[tk]))
                             else:
                                 sh.append(dict(base, thetas=list(THETAS[tier])))
-    # expensive shards first
-    sh.sort(key=lambda s: (0 if s["kind"] == "vqe" and len(s["thetas"]) == 1 else 1))
-    return sh
+    # two cheap classical shards first (their samples reach the evidence), then the expensive shards, then the rest
+    first = [s for s in sh if s["kind"] == "classical" and s["mol"] == "H4" and s["label"] == "core+top_virtual"]
+    rest = [s for s in sh if s not in first]
+    rest.sort(key=lambda s: (0 if s["kind"] == "vqe" and len(s["thetas"]) == 1 else 1))
+    return first + rest
 
 
 def run_shard(sh):
